@@ -29,6 +29,10 @@ RsaClass(k) == IF k \in {"key.pkepublic", "key.pkesecret"} THEN "pke" ELSE "sig"
 KeyLenOf(ver, kind) == CASE kind = "key.local" -> 32
                          [] kind = "key.public" -> (CASE ver = 3 -> 49 [] ver \in {2, 4} -> 32 [] OTHER -> 0)
                          [] kind = "key.secret" -> (CASE ver = 3 -> 48 [] ver \in {2, 4} -> 64 [] OTHER -> 0)
+                         \* key-sealing keys: P-384 keys (k3), Ed25519-shaped keys converted to X25519 (k2, k4), RSA (k1: DER, no fixed length)
+                         [] kind = "key.pkepublic" -> (CASE ver = 3 -> 49 [] ver \in {2, 4} -> 32 [] OTHER -> 0)
+                         [] kind = "key.pkesecret" -> (CASE ver = 3 -> 48 [] ver \in {2, 4} -> 64 [] OTHER -> 0)
+                         [] kind \in {"id.lid", "id.pid", "id.sid", "id.pkepid", "id.pkesid"} -> 33
 
 Verdict(r) ==
   IF r.fn = "xbody" THEN
